@@ -116,6 +116,19 @@ Section C02.
   Qed.
 End C02.
 
+(** the clause "a feature without models of a kind leaves those values as they were" is REFUTED for the grains of slabs
+    and faults (known finding D4): the section interpolation casts both orientation blocks to quaternions and back, and
+    two all-zero blocks (nothing painted, no grains models) come out as identity matrices for every section fraction *)
+From Coq Require Import Reals.
+From WB Require Import RNum Quat QuatProofs.
+Theorem C02_no_grains_models_refuted_for_slabs : forall (sp : special) (a : R),
+  @average_rotation R (Rnum sp) (repeat 0%R 9) (repeat 0%R 9) a = [1; 0; 0; 0; 1; 0; 0; 0; 1]%R /\
+  @average_rotation R (Rnum sp) (repeat 0%R 9) (repeat 0%R 9) a <> repeat 0%R 9.
+Proof.
+  intros sp a. split; [exact (zero_rotations_become_identity sp a)|].
+  rewrite (zero_rotations_become_identity sp a). cbn [repeat]. intros H. injection H as H. revert H. apply R1_neq_R0.
+Qed.
+
 Print Assumptions C02_delete.
 Print Assumptions C02_covering_fold.
 Print Assumptions C02_permute.
@@ -126,3 +139,4 @@ Print Assumptions C02_composition_listed.
 Print Assumptions C02_composition_unlisted.
 Print Assumptions C02_model_stack.
 Print Assumptions C02_no_models.
+Print Assumptions C02_no_grains_models_refuted_for_slabs.
